@@ -18,6 +18,7 @@ META = {
     'assumptions': ['HashMap iteration order of the two static channels is unspecified (both joins are sent; their relative order is not decided)'],
     'trusted_base': ['rustc nightly MIR construction', 'mirfacts exporter', 'rules/c03.py, dsl.py, sym.py, facts.py', 'spec/server_pdus.json'],
 }
+META['explanation'] += ' Further: the connect response is decoded under BER (R03.11, R18.7), the deactivate-all reset is present and reachable so that every demand-active is answered (R03.12 = R12.5).'
 
 XW = 'core::x224::Client::<S>::write'
 XR = 'core::x224::Client::<S>::read'
